@@ -48,6 +48,9 @@ def as_iter(st, v):
     if v.t.kind == 'union':
         v = E.concretize(st, v)
     k = v.t.kind
+    if k == 'list' and v.t.args and v.t.args[0].kind == 'unknown':
+        # an empty list literal whose element type was never determined (e.g. the default of dict.get)
+        return IterV(z3.IntVal(0), None, items=[])
     if k == 'list':
         s, et = B.seq_of(st, v)
         return IterV(s.n, lambda kk: Val(et, z3.Select(s.arr, kk)), src=(v, s))
@@ -86,6 +89,11 @@ def as_iter(st, v):
         return IterV(z3.Length(v.z), lambda kk: Val(T.INT, z3.StrToCode(z3.SubString(v.z, kk, 1))))
     if k == 'str':
         return IterV(z3.Length(v.z), lambda kk: Val(T.STR, z3.SubString(v.z, kk, 1)))
+    if not st.spec:
+        from . import calls
+        if k in ('int', 'real', 'bool', 'none') or (k == 'ref' and calls._not_iterable(v.t.name)):
+            # iter() of a number, None, or an object of a repository class without __iter__/__getitem__
+            E.check_or_raise(st, z3.BoolVal(False), 'TypeError')
     raise Undecided('iteration over %r at line %s' % (v.t, st.lineno))
 
 
@@ -235,6 +243,8 @@ def exec_for(st, s):
         if not broke:
             E.exec_block(st, s.orelse)
         return
+    if not _has_contract(st, s):
+        return _unroll_for(st, s, it)
     o, lc = loop_contract(st, s)
     line = s.lineno
     kname = '_k'
@@ -316,6 +326,50 @@ def exec_for(st, s):
     st.assume(kk == it.n)
     E.exec_block(st, s.orelse)
     _restore_k(st, kname, saved_k)
+
+
+UNROLL = 3
+
+
+def _has_contract(st, s):
+    o = getattr(s, '_ordinal', None)
+    return st.contract is not None and o is not None and st.contract.loops.get(o) is not None
+
+
+def _unroll_for(st, s, it):
+    """A `for` loop the contract says nothing about (new or rewritten code): it is unrolled UNROLL times and longer
+    runs are cut.  The function is then explored in refutation-only mode -- a counter-model found on an unrolled
+    path is a real execution, but nothing is proved (the driver reports the function as undecided unless an
+    obligation is refuted)."""
+    st.ex.partial = (getattr(st.ex, 'partial', None) or '')
+    note = 'loop at line %d has no loop contract (unrolled %d times); ' % (s.lineno, UNROLL)
+    if note not in st.ex.partial:
+        st.ex.partial += note
+    for i in range(UNROLL + 1):
+        if st.choose(2, 'unrolled loop line %d: exit/iterate' % s.lineno) == 0:
+            st.assume(it.n == i)
+            E.exec_block(st, s.orelse)
+            return
+        st.assume(it.n > i)
+        if i == UNROLL:
+            st.ex.exits['cut'] += 1
+            raise PathEnd()
+        if it.src is not None:
+            lv, snap = it.src
+            cur = st.list_seq(lv.z, lv.t.args[0])
+            if st.feasible(z3.Not(z3.And(cur.n == snap.n, cur.arr == snap.arr))):
+                raise Undecided('unrolled loop at line %d may change the list it iterates over' % s.lineno)
+        itemv = it.item(z3.IntVal(i))
+        for comp in (itemv.z if itemv.t.kind == 'xtuple' else (itemv,)):
+            if comp.t.kind not in ('xtuple', 'seq', 'fn', 'typeobj', 'iter'):
+                st.assume_type(comp)
+        E.assign_target(st, s.target, itemv)
+        try:
+            E.exec_block(st, s.body)
+        except ContinueSig:
+            continue
+        except BreakSig:
+            return
 
 
 def _restore_k(st, kname, saved_k):
